@@ -140,6 +140,66 @@ pub fn nan_from_inf(
     false
 }
 
+/// F21: interval arithmetic is not outward-rounded.  True if, on one of the
+/// boxes that produced a trace so far, some node below `root` of the ORIGINAL
+/// graph has an interval that misses its own point value at `p` by at most 4
+/// ulps (the rounding C03's statement concedes).  A decided choice can then be
+/// wrong at `p` -- and a pole or a later choice amplifies the difference.
+/// The internal intervals of the function that was traced are exactly those of
+/// the original graph on the same box (a decided min / max / and / or has the
+/// interval of the operand it keeps), so an all-nodes function of the original
+/// graph reproduces them.
+fn rounding_miss(env: &Env, root: Node, boxes: &[Vec<(f32, f32)>], p: &[f32]) -> Option<String> {
+    fn one<F: MathFunction>(env: &Env, root: Node, boxes: &[Vec<(f32, f32)>], p: &[f32]) -> Option<String> {
+        let below: Vec<Node> = topo(&env.b.ctx, &[root])
+            .into_iter()
+            .filter(|n| !env.b.var_nodes.contains(n))
+            .collect();
+        if below.is_empty() {
+            return None;
+        }
+        let f = F::new(&env.b.ctx, &below).ok()?;
+        let vm = f.vars();
+        // function slot -> position in `p` / the boxes (via the spec variable)
+        let mut slot_to_k: Vec<Option<usize>> = vec![None; vm.len()];
+        for (k, i) in env.order_spec.iter().enumerate() {
+            if let Some(s) = vm.get(&env.b.vars[*i]) {
+                slot_to_k[s] = Some(k);
+            }
+        }
+        let pin: Vec<f32> = slot_to_k.iter().map(|k| k.map(|k| p[k]).unwrap_or(0.0)).collect();
+        let pt = f.point_tape(Default::default());
+        let mut pe = F::new_point_eval();
+        let pv: Vec<f32> = pe.eval(&pt, &pin).ok()?.0.to_vec();
+        let it = f.interval_tape(Default::default());
+        let mut ie = F::new_interval_eval();
+        for bx in boxes {
+            let iin: Vec<Interval> = slot_to_k
+                .iter()
+                .map(|k| k.map(|k| Interval::new(bx[k].0, bx[k].1)).unwrap_or(Interval::from(0.0)))
+                .collect();
+            let iv: Vec<Interval> = ie.eval(&it, &iin).ok()?.0.to_vec();
+            for (j, n) in below.iter().enumerate() {
+                let (i, v) = (iv[j], pv[j]);
+                if i.has_nan() || v.is_nan() || (i.lower() <= v && v <= i.upper()) {
+                    continue;
+                }
+                if crate::refsem::ulps(v, i.lower()) <= 4 || crate::refsem::ulps(v, i.upper()) <= 4 {
+                    return Some(format!(
+                        "{:?}: interval [{}, {}] misses its point value {} by a few ulps",
+                        env.b.ctx.get_op(*n).unwrap(),
+                        fl_to_string(i.lower()),
+                        fl_to_string(i.upper()),
+                        fl_to_string(v)
+                    ));
+                }
+            }
+        }
+        None
+    }
+    one::<fidget_core::vm::VmFunction>(env, root, boxes, p).or_else(|| one::<JitFunction>(env, root, boxes, p))
+}
+
 struct Env<'a> {
     b: &'a Built,
     roots: &'a [Node],
@@ -185,6 +245,8 @@ where
     let mut child: Option<Cf> = None;
     let mut depth = 0;
     let mut nontrivial = false;
+    // the boxes interval traces were taken on so far
+    let mut traced_boxes: Vec<Vec<(f32, f32)>> = vec![];
     for step in &case.steps {
         // shrink the box
         for (k, i) in env.order_spec.iter().enumerate() {
@@ -239,6 +301,9 @@ where
             cx.ev.count("no_trace_returned");
             continue;
         };
+        if step.interval {
+            traced_boxes.push(cur_box.clone());
+        }
         let (lr, both, unk) = trace_classes(&trace);
         cx.ev.count(if step.interval {
             "traces_from_interval_eval"
@@ -333,6 +398,22 @@ where
                     if sig != "child-differs-from-parent" && cx.known(sig) {
                         continue;
                     }
+                    if sig == "child-differs-from-parent" {
+                        if let Some(why) = rounding_miss(env, root, &traced_boxes, p) {
+                            if cx.known("F21-interval-not-outward-rounded") {
+                                continue;
+                            }
+                            fail!(
+                                "F21-interval-not-outward-rounded",
+                                "after {depth} simplification(s): {} output {k}: parent {} child {} at {:?} (box {:?}); {why}",
+                                KIND_NAMES[kind],
+                                fl_to_string(pv[k]),
+                                fl_to_string(cv[k]),
+                                p,
+                                cur_box
+                            );
+                        }
+                    }
                     fail!(
                         sig,
                         "after {depth} simplification(s) (last trace from {} eval: {lr} decided / {both} both): {} output {k}: parent {} child {} at {:?} (box {:?})",
@@ -399,6 +480,12 @@ where
                             && cx.known("F11-interval-ignores-nan-from-infinity")
                         {
                             cx.ev.count("child_interval_miss_f11_skipped");
+                            continue;
+                        }
+                        if rounding_miss(env, env.roots[k], &traced_boxes, p).is_some()
+                            && cx.known("F21-interval-not-outward-rounded")
+                        {
+                            cx.ev.count("child_interval_miss_f21_skipped");
                             continue;
                         }
                         // also excused if the *parent's* interval evaluator
